@@ -150,6 +150,22 @@ func genC11(tier, out string, sum *Summary) {
 			}
 		}
 	}
+	// literals are text too: a backslash the grammar leaves alone, in front of code points of every width
+	for _, cp := range []string{"é", "€", "😀", "中", "\u0301", "\u00a0", "\U0010ffff", "ÿ", "z"} {
+		for _, body := range []string{"\\" + cp, "a\\" + cp + "b", cp + "\\" + cp, "\\" + cp + "\\" + cp, "\\\\" + cp} {
+			lt := "'" + body + "'"
+			want := strings.ReplaceAll(body, "\\\\", "\\")
+			expect("raw-literal", lt, nil, want)
+			expect("raw-literal", "length("+lt+")", nil, json.Number(strconv.Itoa(len([]rune(want)))))
+			rev := []rune(want)
+			for i, j := 0, len(rev)-1; i < j; i, j = i+1, j-1 {
+				rev[i], rev[j] = rev[j], rev[i]
+			}
+			expect("raw-literal", "reverse("+lt+")", nil, string(rev))
+			expect("raw-literal", lt+"[1:]", nil, string([]rune(want)[1:]))
+			expect("raw-literal", "find_first("+lt+", '"+cp+"')", nil, refFind(want, cp, nil, nil, false))
+		}
+	}
 	for i := 0; i < n; i++ {
 		s := cpString(8)
 		rs := []rune(s)
